@@ -907,3 +907,25 @@ def run(ctx, R):
         ctx, R, c09._run_c09, 'R11.9',
         select=lambda o: o.rule in ('R9.1', 'R9.2'))
     R.count('R11.9', n9, 5)
+
+
+def r1112(ctx, R):
+    """Replacing a consumer's allocations means: what it held before does
+    not count against what it asks for now.  The write deletes the
+    consumer's current rows before the capacity check sums the usage (the
+    ordering obligations of R1.2): checked the other way round, a
+    replacement that fits is refused and the reads keep reporting the old
+    state where the history prescribes the new one."""
+    from psa.rules import c01
+    n = C.reuse_obligations(
+        ctx, R, lambda c, r: c01.r12(c, r), 'R11.12',
+        select=lambda o: o.construct.startswith('_set_allocations:'))
+    R.count('R11.12', n, 4)
+
+
+_run_c11b = run
+
+
+def run(ctx, R):
+    _run_c11b(ctx, R)
+    r1112(ctx, R)
